@@ -12,7 +12,8 @@
    null / {} / error skipping, de-duplication, batchStats), loadPhase (erroredFetchIDs),
    mergeResult (all error branches), shouldSkipErroredDependencyLocked, astjson MergeValues.
    The loader modelled is the one WITH the C07 repairs (every failed fetch is recorded as errored,
-   an entity fetch checks the `_entities` count, non-JSON number tokens make the body invalid);
+   an entity fetch checks the `_entities` count, non-JSON number tokens make the body invalid,
+   data of the wrong JSON kind is reported instead of failing in MergeValues);
    C07/ModelPreFix.v keeps the previous mergeResult for the historical refutations.
 
    The subgraph side is a parameter: [exchange : St -> request -> response * St] (state-passing so
@@ -374,6 +375,15 @@ Fixpoint merge_buckets (f : fetch) (s : lstate) (bs : list (list rpath)) (batch 
   | _, _ => s
   end.
 
+(* mergeableData (repair eb6ed70, only when res.multi == nil -- no MultiFetch in this model -- and MergePath is empty):
+   what is merged into a single item must be an object, every item of a batch an object or null; anything else is an
+   invalid response of this subgraph ("no data or errors in response"), not an ErrMergeDifferentTypes of the operation *)
+Definition mp_empty (f : fetch) : bool := match f_mergepath f with [] => true | _ => false end.
+Definition is_obj (j : json) : bool := match j with JObj _ => true | _ => false end.
+Definition obj_or_null (j : json) : bool := match j with JObj _ | JNull => true | _ => false end.
+Definition wrong_kind_single (f : fetch) (rd : json) : bool := mp_empty f && negb (is_obj rd).
+Definition wrong_kind_batch (f : fetch) (b : list json) : bool := mp_empty f && negb (forallb obj_or_null b).
+
 Definition merge_result (f : fetch) (res : response) (items : list rpath) (batch : option (list (list rpath)))
            (s : lstate) : lstate :=
   if rs_err res then fail s LE_FETCH f else
@@ -412,11 +422,12 @@ Definition merge_result (f : fetch) (res : response) (items : list rpath) (batch
                    | JObj _ => set_data s rd                          (* dataBuffer.Set(responseData) *)
                    | _ => fail s LE_SHAPE f
                    end
-        | [l], None => merge_target f s l rd
+        | [l], None => if wrong_kind_single f rd then fail s LE_SHAPE f else merge_target f s l rd
         | _, _ =>
           match rd with
           | JArr [] => fail s LE_SHAPE f                              (* GetArray() of an empty array is nil *)
           | JArr b =>
+            if wrong_kind_batch f b then fail s LE_SHAPE f else
             match batch with
             | Some bs => if Nat.eqb (length bs) (length b) then merge_buckets f s bs b else fail s LE_COUNT f
             | None => if Nat.eqb (length items) (length b) then merge_pairwise f s items b else fail s LE_COUNT f
